@@ -1321,11 +1321,25 @@ class ClassNode(AstNode, NamespaceMixin):
         new.scope_file = self.scope_file[:]
 
         # Clone all functions.
+        # A function may be grouped by blocks: clone the scopes between
+        # the function and the class to keep what the blocks set.
+        def rescope(scope, memo):
+            if scope is None:
+                return None
+            if id(scope) not in memo:
+                dup = scope.clone()
+                dup.reparent(rescope(scope.get_parent(), memo))
+                memo[id(scope)] = dup
+            return memo[id(scope)]
+        memo_fmt = {id(self.fmtdict): new.fmtdict}
+        memo_opt = {id(self.options): new.options}
         newfcns = []
         for fcn in self.functions:
             newfcn = fcn.clone()
-            newfcn.fmtdict.reparent(new.fmtdict)
-            newfcn.options.reparent(new.options)
+            newfcn.fmtdict.reparent(
+                rescope(fcn.fmtdict.get_parent(), memo_fmt))
+            newfcn.options.reparent(
+                rescope(fcn.options.get_parent(), memo_opt))
             newfcns.append(newfcn)
         new.functions = newfcns
 
